@@ -25,7 +25,7 @@ COMPONENTS = {"real": ["torchphysics Solver/callbacks (TrainerStateCheckpoint, W
 
 
 def budget(tier):
-    return {"cases": 64 if tier == "quick" else 800, "wall": 1200 if tier == "quick" else 3400,
+    return {"cases": 64 if tier == "quick" else 800, "wall": 1200 if tier == "quick" else 3000,
             "shrink": 10, "det_legs": 2}
 
 
